@@ -172,6 +172,8 @@ type dbSys struct {
 	perm   *isaacdatabase.LeveldbPermanent
 	center *isaacdatabase.Center
 	pool   *isaacdatabase.TempPool
+	// bwCache > 0: every block-write database gets a bounded state cache, as launch.NewBlockWriterFunc gives it
+	bwCache int
 }
 
 func openDBSys(disk *simdisk.Disk, stcache int) (*dbSys, error) {
@@ -226,6 +228,12 @@ func (s *dbSys) writeBlock(b *dbBlock) error {
 	bw, err := s.center.NewBlockWriteDatabase(b.h)
 	if err != nil {
 		return err
+	}
+
+	if s.bwCache > 0 {
+		if i, ok := bw.(isaac.StateCacheSetter); ok {
+			i.SetStateCache(util.NewLFUGCache[string, [2]interface{}](s.bwCache))
+		}
 	}
 
 	if err := bw.SetStates(b.states); err != nil {
